@@ -9,5 +9,16 @@ claim("C10", "Hash equality is byte equality; event hashing covers index, parent
       "Update.Verify implies signature/counter check of the accumulator or a cached accumulator; signed.Verify implies DER shape, no trailing bytes and ECDSA acceptance.",
       ASSUME_COMMON + "Not decided: collision resistance of SHA-256, ECDSA unforgeability (premises). cbor/asn1/multihash/ecdsa are external with written contracts.")
 
-for pid in ["C02", "C03", "C04", "C05", "C06", "C07", "C08", "C09", "C11", "C12", "C13", "C14", "C15", "C16", "C17", "C18", "C19", "C20"]:
+claim("C12", "For all integers m, sign, factor, bound and every proof descriptor: ProvesStatement/Proves returning true and the statement a verified proof establishes (Sign*(A*m-K) >= 0) imply the queried inequality over the integers, including 64-bit wrap-around of factor*4; "
+      "ProvenStatement reports an inequality that holds for m; ExtractStructure accepts a descriptor only within the documented limits and with sign in {1,-1}; newWithParams puts exactly -a*sign (no wrap) as exponent of R_m.",
+      ASSUME_COMMON + "Not decided: the sum-of-squares soundness argument itself (premise); that ProofD.ChallengeContribution verifies every carried range proof is claimed under this property only once those contracts are discharged.")
+claim("C13", "NewProofStructure yields a structure whose established statement is equivalent over the integers to the requested one (four squares: both signs; three squares: sign=+1); known finding: three squares with sign=-1 (printed as KNOWN-FINDING). "
+      "newWithParams copies sign, factor, bound, l_d and index unchanged.",
+      ASSUME_COMMON + "Not decided: that the square splitters return squares summing to the difference (number theory) and that the resulting proof verifies (Schnorr algebra).")
+claim("C15", "IntHashSha256(x) = os2ip(sha256(x)) relative to the written contracts of crypto/sha256 (New/Write/Sum).",
+      ASSUME_COMMON + "crypto/sha256 and encoding/asn1 are external (trusted contracts). HashCommit/GetHashNumber contracts are added when discharged.")
+claim("C19", "ModPow: result = pow(x,y,m) for y>=0; for y<0 the power of the inverse, or ErrNoModInverse exactly when no inverse exists; result in [0,|m|).",
+      ASSUME_COMMON + "math/big.Int.Exp/ModInverse are trusted native models (pow, inv uninterpreted). Other helpers are added when discharged.")
+
+for pid in ["C02", "C03", "C04", "C05", "C06", "C07", "C08", "C09", "C11", "C14", "C16", "C17", "C18", "C20"]:
     na(pid, "contracts for this property are not yet discharged in this round of the build; no check is registered until its obligations run green (see DESIGN.md section 7, build order)")
